@@ -8,6 +8,7 @@
 // drop counter; anomalies = torn values, values seen after their destructor ran, double drops,
 // and disagreements of the sequential epilogue (data_with / clear_with / is_empty).
 use metrics_util::storage::AtomicBucket;
+use std::cell::Cell;
 use std::collections::HashMap;
 use std::io::{BufRead, Write};
 use std::sync::atomic::{AtomicU64, Ordering::SeqCst};
@@ -471,10 +472,47 @@ fn stress_round(round: u64, rng: &mut Rng64, per: u32, tot: &mut StressTotals) {
     }
 }
 
+// Noise injection for the stress engine: with the scheduler callback absent, the yield points of the
+// hook commit (one before every shared-memory access of bucket.rs) are used to stall the calling thread
+// for a random short time now and then, which widens every window between two consecutive accesses of one
+// thread (e.g. between the quiescence test and the read of the bitmap in data()) from nanoseconds to
+// microseconds, so that other threads can complete whole operations inside it.
+static NOISE: AtomicU64 = AtomicU64::new(0); // 0 = off, otherwise stall with probability 1/NOISE per point
+thread_local! { static NOISE_RNG: Cell<u64> = Cell::new(0); }
+fn noise_callback(_site: u32, _spin: bool) {
+    let n = NOISE.load(std::sync::atomic::Ordering::Relaxed);
+    if n == 0 {
+        return;
+    }
+    NOISE_RNG.with(|c| {
+        let mut x = c.get();
+        if x == 0 {
+            x = (c as *const Cell<u64> as u64) | 1;
+        }
+        x ^= x >> 12;
+        x ^= x << 25;
+        x ^= x >> 27;
+        c.set(x);
+        let r = x.wrapping_mul(0x2545_F491_4F6C_DD1D);
+        if r % n == 0 {
+            let k = (r >> 20) % 4096;
+            if k > 4000 {
+                std::thread::yield_now();
+            } else {
+                for _ in 0..k {
+                    std::hint::spin_loop();
+                }
+            }
+        }
+    });
+}
+
 fn stress(line: &str) -> String {
     let f: Vec<u64> = line.split_whitespace().skip(1).map(|x| x.parse().unwrap()).collect();
     let (seed, rounds, per) = (f[0], f[1], f[2] as u32);
-    metrics::__verif::set_callback(None);
+    let noise = if f.len() > 3 { f[3] } else { 0 };
+    NOISE.store(noise, SeqCst);
+    metrics::__verif::set_callback(if noise == 0 { None } else { Some(noise_callback) });
     let mut rng = Rng64(seed.wrapping_mul(0x9E37_79B9_7F4A_7C15) | 1);
     let mut tot = StressTotals::default();
     let d0 = SDOUBLE.load(SeqCst);
@@ -485,6 +523,8 @@ fn stress(line: &str) -> String {
             tot.viol(r, "panic in a stress round".to_string());
         }
     }
+    NOISE.store(0, SeqCst);
+    metrics::__verif::set_callback(None);
     let dd = SDOUBLE.load(SeqCst) - d0;
     if dd != 0 {
         tot.viol(rounds, format!("{} values dropped twice", dd));
